@@ -700,7 +700,8 @@ var blockStarts = []func(*lineParser){
 		}
 		for i, conds := range htmlBlockConditions {
 			if conds.startCondition(line) {
-				if !conds.canInterruptParagraph && p.ContainerKind() == ParagraphKind {
+				if !conds.canInterruptParagraph && (p.ContainerKind() == ParagraphKind || p.TipKind() == ParagraphKind) {
+					// The line continues the paragraph (possibly as a lazy continuation line).
 					return
 				}
 				p.OpenHTMLBlock(i)
